@@ -8,6 +8,7 @@ import Driver.Url
 import Driver.Queue
 import Driver.Stage
 import Driver.Pipeline
+import Driver.Extract
 /-! zdriver: `zdriver <domain> [--base]` reads one JSON object per line, prints one result line each. -/
 open Lean
 
@@ -30,6 +31,7 @@ def domains : List (String × Domain) := [
   ("diskwatch", stateless Driver.Disk.stepWatch),
   ("item", { σ := Zeno.Model.Item.Tree, init := Driver.Item.init, step := Driver.Item.step }),
   ("rl", { σ := Driver.RateLimiter.St, init := {}, step := Driver.RateLimiter.step }),
+  ("extract", { σ := Unit, init := (), step := Driver.Extract.step }),
   ("pipeline", { σ := Unit, init := (), step := Driver.Pipeline.step }),
   ("reactor", { σ := Zeno.Model.Reactor.R, init := Zeno.Model.Reactor.R.init, step := Driver.Reactor.step })
 ]
